@@ -213,10 +213,12 @@ StepP(P, cc) ==
            ELSE Undef(c, "name")
       [] f.k = "seq" -> IF f.rest = <<>> THEN [c EXCEPT !.ctl = NoneV, !.k = rest]
                         ELSE [c EXCEPT !.ctl = St(f.rest[1]), !.k = Push([f EXCEPT !.rest = Tail(f.rest)], rest)]
-      [] f.k = "if" -> IF v.kind # "int" \/ v.v \notin {0, 1} THEN Undef(c, "nonbool")
-                       ELSE [c EXCEPT !.ctl = St(IF v.v = 1 THEN f.t ELSE f.e), !.k = rest]
-      [] f.k = "wh" -> IF v.kind # "int" \/ v.v \notin {0, 1} THEN Undef(c, "nonbool")
-                       ELSE IF v.v = 1 THEN [c EXCEPT !.ctl = St(f.b), !.k = Push([f EXCEPT !.k = "whb"], rest)]
+      \* a condition is a truth value; in machine mode (C07: what the compiled test does with a run-time value) any other number counts as
+      \* true, as the machine's branch-on-zero has it
+      [] f.k = "if" -> IF v.kind # "int" \/ (ideal /\ v.v \notin {0, 1}) THEN Undef(c, "nonbool")
+                       ELSE [c EXCEPT !.ctl = St(IF v.v # 0 THEN f.t ELSE f.e), !.k = rest]
+      [] f.k = "wh" -> IF v.kind # "int" \/ (ideal /\ v.v \notin {0, 1}) THEN Undef(c, "nonbool")
+                       ELSE IF v.v # 0 THEN [c EXCEPT !.ctl = St(f.b), !.k = Push([f EXCEPT !.k = "whb"], rest)]
                        ELSE [c EXCEPT !.ctl = NoneV, !.k = rest]
       [] f.k = "whb" -> [c EXCEPT !.ctl = Ex(f.c), !.k = Push([f EXCEPT !.k = "wh"], rest)]
       [] f.k = "drop" -> IF v.kind = "int" THEN Undef(c, "unsupported")     \* a function called as a statement
